@@ -61,6 +61,29 @@ def numeric_of(t):
     return m.group(1) if m else None
 
 
+MANT = {"float": 24, "double": 53, "long double": 64}
+
+
+def narrowing_casts(val, T, member_T=None):
+    """Casts of a non-constant value to a type with fewer significand bits than T inside a computed value."""
+    out = []
+
+    def rec(t):
+        if isinstance(t, tuple) and t:
+            if t[0] == "cast" and t[1] in MANT and T in MANT and MANT[t[1]] < MANT[T] and ev.leaves(t[2]):
+                out.append((t[1], t))
+            for x in t:
+                rec(x)
+        elif isinstance(t, ev.Obj):
+            for v in t.f.values():
+                rec(v)
+        elif isinstance(t, ev.Arr):
+            for v in t.items:
+                rec(v)
+    rec(val)
+    return out
+
+
 def check_linear_map(chk, rule, F, mname, f, a, b, inverse, conv_fields, argname="x"):
     """f: X -> a X + b tr(X) I  (or its inverse) slot-wise; a, b sympy in the model's member symbols."""
     pt = strip_cvref(F.T(f["params"][0]["t"]))
@@ -70,6 +93,11 @@ def check_linear_map(chk, rule, F, mname, f, a, b, inverse, conv_fields, argname
         E, res = eval_method(F, f, mname, [argname])
         if E.unknown_calls:
             chk.inconclusive(rule, inst, "unmodelled call " + E.unknown_calls[0], loc)
+            return None
+        Tp = numeric_of(pt)
+        nar = narrowing_casts(res, Tp)
+        if nar:
+            chk.violated(rule, inst, "the %s overload narrows an intermediate to %s (%s): the result has only %s precision" % (Tp, nar[0][0], ev.show(nar[0][1])[:120], nar[0][0]), loc)
             return None
         conv = nf.Conv(positive=True)
         E0 = ev.Evaluator(F)
